@@ -56,19 +56,15 @@ def rule_finalcast(ctx) -> RuleResult:
         res.report("core._finalize_results|path-without-final-cast", f.where(), f.qualname,
                    "a path reaches 'return' without casting the result to agg.dtype['final']: the computed blocks keep the accumulator dtype "
                    "while the lazy array announces the final dtype (plan-dependent dtype)", path=cfg.describe_path(paths[0])[-8:])
-    # and nothing rewrites finalized[agg.name] after the cast
-    for c in casts:
-        seen, work = set(), [s for s, _ in c.succ]
-        while work:
-            i = work.pop()
-            if i in seen:
-                continue
-            seen.add(i)
-            n = cfg.nodes[i]
-            if n.kind == "stmt" and isinstance(n.ast, ast.Assign) and any(norm(t) == "finalized[agg.name]" for t in n.ast.targets) and not _is_final_cast(n):
+    # and nothing rewrites finalized[agg.name] after the LAST cast: from every other write of the result, every path to return passes a cast
+    # (an earlier, additional cast -- e.g. before the finalizer's reindex -- is harmless)
+    for n in cfg.nodes:
+        if n.kind == "stmt" and isinstance(n.ast, ast.Assign) and any(norm(t) == "finalized[agg.name]" for t in n.ast.targets) and not _is_final_cast(n):
+            bad = [p_ for s_, lab in n.succ if lab != "exc" for p_ in cfg.must_pass_before_exit(lambda m: m.kind == "stmt" and _is_final_cast(m), start=s_)
+                   if not (cfg.nodes[s_].kind == "stmt" and _is_final_cast(cfg.nodes[s_]))]
+            if bad:
                 res.report("core._finalize_results|write-after-final-cast", f.where(n.ast), f.qualname,
-                           f"{norm(n.ast)[:70]} rewrites the result after the final cast")
-            work.extend(s for s, _ in n.succ)
+                           f"{norm(n.ast)[:70]} rewrites the result and a path from it reaches 'return' without another cast to agg.dtype['final']")
     # (2) chunk_reduce: the value returned by the engine dispatch is cast to the per-kernel dtype
     cr = prog.func("core.chunk_reduce")
     disp = [c for c in calls_in(cr.node) if norm(c.func) == "generic_aggregate"]
@@ -1597,4 +1593,46 @@ def rule_fillwiden(ctx) -> RuleResult:
             res.report(f"xrdtypes._normalize_dtype|return-before-fill-widening|{getattr(r.ast, 'lineno', 0)}", f.where(r.ast), f.qualname,
                        f"'{norm(r.ast)[:50]}' returns before the fill value has been considered: on this path an integer result is not widened for a NaN / fractional / "
                        "out-of-range fill_value, which _finalize_results then writes and casts back (NaN becomes int64.min)")
+    return res
+
+
+# ---------------------------------------------------------------------------------------------
+# R-FILLCAST (C05, C11): the user's fill is never written into a value that has not been cast to the final dtype yet.
+# _normalize_dtype widens the FINAL dtype for the user's fill (any/all with a negative fill become integer, count with a fractional fill float;
+# R-FILLWIDEN).  reindex_ itself only promotes for NaN/NA fills: handed the un-cast finalized value (bool, intp) it writes -1 as True and 0.5
+# as 0, and the cast that follows cannot bring the fill back.  Every reindex_ call of _finalize_results that carries the user's fill receives
+# either `<value>.astype(agg.dtype["final"] ...)` or a value whose final cast dominates the call.  (np.where promotes by itself.)
+def rule_fillcast(ctx) -> RuleResult:
+    res = RuleResult("R-FILLCAST", "the finalizer re-indexes with the user's fill only values already cast to the final dtype", min_instances=1)
+    f = ctx.prog.func("core._finalize_results")
+    cfg = CFG(f)
+    dom = cfg.dominators()
+    casts = [n for n in cfg.nodes if n.kind == "stmt" and _is_final_cast(n)]
+    from .codes import _local_closure
+    from ..dataflow import node_containing
+    n_calls = 0
+    for c in calls_in(f.node):
+        if norm(c.func) != "reindex_":
+            continue
+        fv = kwarg(c, "fill_value")
+        if fv is None:
+            continue
+        clo = " ".join(norm(e) for e in _local_closure(f, fv))
+        if "fill_value['user']" not in clo and 'fill_value["user"]' not in clo:
+            continue
+        n_calls += 1
+        arr = c.args[0] if c.args else kwarg(c, "array")
+        inline = isinstance(arr, ast.Call) and isinstance(arr.func, ast.Attribute) and arr.func.attr == "astype" and arr.args \
+            and access_path(arr.args[0]) == "agg.dtype['final']"
+        node = node_containing(cfg, c)
+        dominated = node is not None and any(k.id in dom.get(node.id, ()) for k in casts)
+        res.inst(f"_finalize_results: {norm(c)[:50]}: value cast inline: {inline}; final cast dominates the call: {dominated}", f"reindex|{c.lineno}")
+        if not inline and not dominated:
+            res.report("core._finalize_results|fill-written-before-final-cast", f.where(c), f.qualname,
+                       f"'{norm(c)[:60]}' writes the user's fill into '{norm(arr)[:40]}', which still has the accumulator / kernel dtype (bool for any/all, intp for "
+                       "count): reindex_ promotes only for NaN fills, so fill_value=-1 becomes True and 0.5 becomes 0 on the plans that reindex in the finalizer "
+                       "(map-reduce with reindex=False, cohorts), while the other plans return the fill verbatim")
+    if n_calls == 0:
+        res.notes.append("_finalize_results no longer re-indexes with the user's fill: rule not applicable")
+        res.min_instances = 0
     return res
